@@ -5,6 +5,9 @@ import GA.Lemmas.Attr
 namespace GA.Bridge.Mem
 open GA.Gen.Mem
 
+/-- both views of `chunks_from_slice(_mut)` are made from pointers derived from the argument slice itself -/
+@[ga_bridge] theorem chunksRootsAreSlice_eq : chunksRootsAreSlice = true := by bridge_bool [chunksRootsAreSlice]
+@[ga_bridge] theorem chunksMutRootsAreSlice_eq : chunksMutRootsAreSlice = true := by bridge_bool [chunksMutRootsAreSlice]
 @[ga_bridge] theorem chunksN0_eq (n : Nat) : chunksN0 n = decide (n = 0) := by bridge_bool [chunksN0]
 @[ga_bridge] theorem chunksN0Empty_eq (len : Nat) : chunksN0Empty len = decide (len = 0) := by bridge_bool [chunksN0Empty]
 @[ga_bridge] theorem chunksChunkOff_eq (len n : Nat) : chunksChunkOff len n = 0 := by bridge_nat [chunksChunkOff]
